@@ -279,6 +279,7 @@ func runC09(c *Ctx) {
 	runC09Remove(c, tn)
 	runC09Len(c, tn)
 	runC09Rebuild(c, named)
+	runC09Config(c, named)
 }
 
 // traceBool: the value of a boolean abstract value on a finished trace.
@@ -535,4 +536,193 @@ func latchOf(l *loopInfo) *ssa.BasicBlock {
 		}
 	}
 	return l.Header
+}
+
+// runC09Config: configuration and identity rules of the LRU.
+//   capacity   the constructor stores the requested capacity unchanged (the first optional
+//              argument when given, the documented default otherwise): no clamping, no rounding
+//   callback   the setter stores exactly the function it is given (a wrapper can drop or alter
+//              notifications)
+//   identity   the private removal helper finds the key of the element being removed by element
+//              IDENTITY (pointer equality with the element), never by comparing stored values
+//              (two keys may hold equal values)
+func runC09Config(c *Ctx, named *types.Named) {
+	p := c.P
+	c.Rule("C09-CONFIG", "constructor stores the requested capacity unchanged; the callback setter stores its argument; the removed element's key is found by element identity", 3)
+	tn := named.Obj().Name()
+	st := named.Underlying().(*types.Struct)
+	fieldIdx := func(pred func(v *types.Var) bool) int {
+		for i := 0; i < st.NumFields(); i++ {
+			if pred(st.Field(i)) {
+				return i
+			}
+		}
+		return -1
+	}
+	capField := fieldIdx(func(v *types.Var) bool {
+		b, ok := v.Type().Underlying().(*types.Basic)
+		return ok && b.Info()&types.IsInteger != 0 && strings.Contains(strings.ToLower(v.Name()), "max")
+	})
+	cbField := fieldIdx(func(v *types.Var) bool {
+		_, ok := v.Type().Underlying().(*types.Signature)
+		return ok
+	})
+	// ---- constructor: a package-level function returning *T that allocates T
+	var ctor *ssa.Function
+	for _, fn := range p.Funcs {
+		if fn.Pkg != p.Pkg("valid") || fn.Signature.Recv() != nil || fn.Parent() != nil || fn.Signature.Results().Len() != 1 {
+			continue
+		}
+		if pt, ok := fn.Signature.Results().At(0).Type().(*types.Pointer); ok && namedOf(pt.Elem()) == named {
+			ctor = fn
+		}
+	}
+	if ctor == nil || capField < 0 {
+		c.Unk("C09-CONFIG", tn, "capacity", token.NoPos, "constructor or capacity field not found")
+	} else {
+		c.Funcs[fnName(ctor)] = true
+		c.Sites++
+		var bad []string
+		n := 0
+		for _, b := range ctor.Blocks {
+			for _, ins := range b.Instrs {
+				stt, ok := ins.(*ssa.Store)
+				if !ok {
+					continue
+				}
+				fa, ok := stt.Addr.(*ssa.FieldAddr)
+				if !ok || namedOf(fa.X.Type()) != named || fa.Field != capField {
+					continue
+				}
+				n++
+				// value: phi{ constant default, first element of the variadic parameter }
+				var check func(v ssa.Value, d int)
+				check = func(v ssa.Value, d int) {
+					if d > 4 {
+						bad = append(bad, "capacity value not recognised")
+						return
+					}
+					switch x := v.(type) {
+					case *ssa.Const:
+					case *ssa.Phi:
+						for _, e := range x.Edges {
+							check(e, d+1)
+						}
+					case *ssa.UnOp:
+						ia, ok := x.X.(*ssa.IndexAddr)
+						if !ok || len(ctor.Params) == 0 || ia.X != ctor.Params[len(ctor.Params)-1] {
+							bad = append(bad, "the capacity stored is not the caller's argument")
+							return
+						}
+						if k, isK := constInt(ia.Index); !isK || k != 0 {
+							bad = append(bad, "the capacity stored is not the first optional argument")
+						}
+					case *ssa.Parameter:
+					default:
+						bad = append(bad, fmt.Sprintf("the requested capacity is transformed before it is stored (%T): clamped, rounded or otherwise changed", v))
+					}
+				}
+				check(stt.Val, 0)
+				// a phi edge carrying a constant must be the default edge only: a constant on a path where
+				// the caller gave a capacity means clamping
+				consts := 0
+				seenPhi := map[ssa.Value]bool{}
+				var count func(v ssa.Value)
+				count = func(v ssa.Value) {
+					if seenPhi[v] {
+						return
+					}
+					seenPhi[v] = true
+					switch x := v.(type) {
+					case *ssa.Const:
+						consts++
+					case *ssa.Phi:
+						for _, e := range x.Edges {
+							count(e)
+						}
+					}
+				}
+				count(stt.Val)
+				if consts > 1 {
+					bad = append(bad, "more than one constant can become the capacity: the requested capacity is clamped or replaced")
+				}
+			}
+		}
+		if n != 1 {
+			bad = append(bad, fmt.Sprintf("expected one initialisation of the capacity, found %d", n))
+		}
+		c.Check(len(bad) == 0, "C09-CONFIG", fnName(ctor), "capacity", ctor.Pos(), "capacity = requested (or the default)", uniqJoin(bad, 2))
+	}
+	// ---- callback setter: every method other than the constructor storing to the callback field stores a parameter
+	if cbField >= 0 {
+		n := 0
+		var bad []string
+		for _, fn := range p.Funcs {
+			if recvNamed(fn) != named {
+				continue
+			}
+			for _, b := range fn.Blocks {
+				for _, ins := range b.Instrs {
+					stt, ok := ins.(*ssa.Store)
+					if !ok {
+						continue
+					}
+					fa, ok := stt.Addr.(*ssa.FieldAddr)
+					if !ok || namedOf(fa.X.Type()) != named || fa.Field != cbField {
+						continue
+					}
+					n++
+					c.Sites++
+					c.Funcs[fnName(fn)] = true
+					if _, isParam := stt.Val.(*ssa.Parameter); !isParam {
+						if cst, isC := stt.Val.(*ssa.Const); isC && cst.IsNil() {
+							continue
+						}
+						bad = append(bad, fmt.Sprintf("%s stores something other than the function it was given (%T) as the removal callback: notifications can be dropped or altered", fnName(fn), stt.Val))
+					}
+				}
+			}
+		}
+		c.Check(len(bad) == 0 && n > 0, "C09-CONFIG", tn, "callback-setter", token.NoPos, fmt.Sprintf("%d store(s) of the caller's function", n), uniqJoin(append(bad, "no setter found"), 2))
+	}
+	// ---- identity lookup in the removal helper
+	if del := p.Method("valid", tn, "delete"); del != nil {
+		c.Sites++
+		var bad []string
+		nCmp := 0
+		var node ssa.Value
+		if len(del.Params) >= 2 {
+			node = del.Params[1]
+		}
+		for _, b := range del.Blocks {
+			for _, ins := range b.Instrs {
+				bo, ok := ins.(*ssa.BinOp)
+				if !ok || (bo.Op != token.EQL && bo.Op != token.NEQ) {
+					continue
+				}
+				// comparisons inside loops over the map
+				inLoop := false
+				for _, l := range naturalLoops(del) {
+					if l.Body[b] {
+						inLoop = true
+					}
+				}
+				if !inLoop {
+					continue
+				}
+				nCmp++
+				isElem := func(v ssa.Value) bool {
+					pt, ok := v.Type().(*types.Pointer)
+					return ok && isNamed(pt.Elem(), "container/list", "Element")
+				}
+				if !(isElem(bo.X) && isElem(bo.Y) && (bo.X == node || bo.Y == node)) {
+					bad = append(bad, "the key of the element being removed is searched by comparing "+shortType(bo.X.Type().String())+" values, not by element identity: with two keys holding equal values the wrong key is dropped from the map")
+				}
+			}
+		}
+		if nCmp == 0 {
+			bad = append(bad, "no search for the removed element's key found")
+		}
+		c.Check(len(bad) == 0, "C09-CONFIG", fnName(del), "identity", del.Pos(), "key found by element identity", uniqJoin(bad, 2))
+	}
 }
